@@ -300,11 +300,20 @@ def r15_4_threshold_definition(ctx, rule: str = 'R15.4', rule_mirror: str = 'R08
         p0 = f3.node.args.args[0].arg
         t = "default_thresh: every train of the list contributes its spikes; edges are taken from the (reconciled) first train"
         good = False
+        plain = None
         for n in ast.walk(f3.node):
             if isinstance(n, ast.ListComp) and len(n.generators) == 1 and isinstance(n.generators[0].iter, ast.Name) and \
                     n.generators[0].iter.id == p0 and not n.generators[0].ifs and 'spikes' in ast.unparse(n.elt):
                 good = True
+                v = n.generators[0].target.id if isinstance(n.generators[0].target, ast.Name) else '?'
+                plain = ast.unparse(n.elt).replace(' ', '') in (f"{v}.spikes.tolist()", f"{v}.spikes", f"list({v}.spikes)")
         obs.append(ok(rule, t, f3.loc(), construct=f"{fn3}::all-trains") if good else violation(rule, t, f3.loc(), key=f"{fn3}::all-trains"))
+        t = ("default_thresh: trains contribute their plain spike times (an empty train must reach isi_lengths empty so that it counts "
+             "the recording length once; auxiliary edge spikes would count it twice)")
+        if plain:
+            obs.append(ok(rule, t, f3.loc(), construct=f"{fn3}::plain-spikes"))
+        elif plain is False:
+            obs.append(violation(rule, t, f3.loc(), key=f"{fn3}::not-plain-spikes"))
     return obs
 
 
